@@ -16,6 +16,10 @@ Definition prop_c14 (c : case) : bool :=
     has_sub (S (String.length msg)) ("'" +++ path +++ "'") msg &&
     has_sub (S (String.length msg)) source msg
   | CFault _ _ _ _ _ _ _ => false
+  | CApiErr _ path source typed msg =>
+    typed &&
+    has_sub (S (String.length msg)) ("'" +++ path +++ "'") msg &&
+    has_sub (S (String.length msg)) source msg
   | CUnpack _ _ _ _ UPanic _ => false
   | _ => true
   end.
